@@ -4,8 +4,10 @@ use serde_json::Value;
 pub mod c02;
 pub mod c03;
 pub mod c04;
+pub mod c05;
 pub mod c09;
 pub mod c18;
+pub mod c19;
 pub mod c20;
 
 pub struct Check {
@@ -20,8 +22,10 @@ pub fn registry() -> Vec<Check> {
         Check { id: "C02", level: "exploration", run: c02::run, replay: c02::replay },
         Check { id: "C03", level: "exploration", run: c03::run, replay: c03::replay },
         Check { id: "C04", level: "exploration", run: c04::run, replay: c04::replay },
+        Check { id: "C05", level: "exploration", run: c05::run, replay: c05::replay },
         Check { id: "C09", level: "exploration", run: c09::run, replay: c09::replay },
         Check { id: "C18", level: "exploration", run: c18::run, replay: c18::replay },
+        Check { id: "C19", level: "exploration", run: c19::run, replay: c19::replay },
         Check { id: "C20", level: "exploration", run: c20::run, replay: c20::replay },
     ]
 }
